@@ -113,3 +113,43 @@ Theorem C10_clean_under_every_interleaving_any_clock : forall (w : world sym) rp
                  f_content g = f_content f).
 Proof. exact clean_fine_complete_run_cleans_coarse_sym. Qed.
 Print Assumptions C10_clean_under_every_interleaving_any_clock.
+
+(* ---- the WHOLE property under every interleaving (round 5; Proofs/C10Fine{Build,Clean,}.v) ----
+   Under the hypotheses of C10_clean_then_build_restores: after a clean under ANY complete interleaving of its threads, the
+   build under ANY complete interleaving of the rule threads at their cache operations succeeds, runs NO command, puts the
+   very file (content, time, executable bit) back at every target, changes nothing else and reports Recovered everywhere.
+   With pairwise different contents no cache entry is wanted by two targets, so there is nothing to race for. *)
+From Ruler Require Import Ideal FineFacts C10FineBuild C10FineClean C10Fine.
+
+Theorem C10_clean_then_build_under_every_interleaving : forall (w : world sym) rp goal w1 tbl pack chc ch,
+  disk_inv sym_eqb SContent w -> init_dir sym w = Ok (w1, tbl) -> get_nodes sym w1 rp goal = Ok pack ->
+  Forall det_node (p_nodes pack) -> ~ In rp (plan_targets pack) ->
+  o_verdict (build_sym w rp goal) = VOk ->
+  let wa := tick (o_world (build_sym w rp goal)) in
+  NoDup (map (fun t => content_at wa t) (plan_targets pack)) ->
+  clean_complete_sym chc wa rp goal ->
+  let wb' := tick (o_world (clean_fine_sym chc wa rp goal)) in
+  complete_run_sym ch wb' rp goal ->
+  let o3 := build_fine_sym ch wb' rp goal in
+  o_verdict o3 = VOk /\ o_commands o3 = [] /\
+  (forall t, In t (plan_targets pack) -> fget (o_world o3) t = fget wa t) /\
+  (forall p, ~ In p (plan_targets pack) -> fget (o_world o3) p = fget wa p) /\
+  Forall (fun s => fst s = BRecovered) (o_status o3).
+Proof. exact c10_fine_clean_then_fine_build_strong_sym. Qed.
+Print Assumptions C10_clean_then_build_under_every_interleaving.
+
+Theorem C10_build_after_clean_under_every_interleaving : forall (w : world sym) rp goal w1 tbl pack ch,
+  disk_inv sym_eqb SContent w -> init_dir sym w = Ok (w1, tbl) -> get_nodes sym w1 rp goal = Ok pack ->
+  Forall det_node (p_nodes pack) -> ~ In rp (plan_targets pack) ->
+  o_verdict (build_sym w rp goal) = VOk ->
+  let wa := tick (o_world (build_sym w rp goal)) in
+  NoDup (map (fun t => content_at wa t) (plan_targets pack)) ->
+  let wb := tick (o_world (clean_sym wa rp goal)) in
+  complete_run_sym ch wb rp goal ->
+  let o3 := build_fine_sym ch wb rp goal in
+  o_verdict o3 = VOk /\ o_commands o3 = [] /\
+  (forall t, In t (plan_targets pack) -> fget (o_world o3) t = fget wa t) /\
+  (forall p, ~ In p (plan_targets pack) -> fget (o_world o3) p = fget wa p) /\
+  Forall (fun s => fst s = BRecovered) (o_status o3).
+Proof. exact c10_fine_build_runs_nothing_strong_sym. Qed.
+Print Assumptions C10_build_after_clean_under_every_interleaving.
